@@ -199,7 +199,7 @@ func c15ReadFrame(c net.Conn) (typ int, id uint32, payload []byte, err error) {
 	typ = int(h[0]&3)<<8 | int(h[1])
 	n := binary.BigEndian.Uint32(h[2:])
 	id = binary.BigEndian.Uint32(h[6:])
-	if n < 10 || n > 1<<20 {
+	if n < 10 || n > 64<<20 {
 		err = fmt.Errorf("bad frame length %d", n)
 		return
 	}
@@ -248,6 +248,7 @@ type c15Run struct {
 	badVar  int
 	dev     *LLRPDevice
 	name    string
+	devices []models.Device
 }
 
 func (r *c15Run) logf(tok string) {
@@ -261,6 +262,9 @@ type c15SDK struct {
 	interfaces.DeviceServiceSDK
 	run *c15Run
 }
+
+// Devices is what Driver.Start asks the SDK for: the devices as recorded in EdgeX
+func (s *c15SDK) Devices() []models.Device { return s.run.devices }
 
 func (s *c15SDK) UpdateDeviceOperatingState(name string, st models.OperatingState) error {
 	fail := s.run.sdkFail.Load()
@@ -674,6 +678,20 @@ func c15RunScript(id string, up0 bool, toks []string) string {
 			<-cur.done
 			cur = nil
 			c15Pace(func() bool { return r.client() != before }, 60*time.Millisecond)
+		case tok == "Y" || tok == "y":
+			// Stop right after NewLLRPDevice, while the supervisor is about to make its first
+			// attempt: Go may notice the cancellation before or after entering the retry loops
+			// (events StopAtEntry / Stop of the model); the check accepts either
+			r.logf("stop")
+			ctx, cancel := context.WithTimeout(context.Background(), 20*time.Millisecond)
+			if tok == "y" {
+				cancel()
+			}
+			_ = r.dev.Stop(ctx)
+			cancel()
+			stopAt = time.Now()
+			stopped = true
+			time.Sleep(10 * time.Millisecond)
 		case tok == "T" || tok == "t":
 			if !stopped {
 				r.logf("stop")
@@ -789,6 +807,169 @@ watch:
 	return fmt.Sprintf("%s | up=%d", strings.Join(r.log, " "), map[bool]int{false: 0, true: 1}[up])
 }
 
+// c15RunStart: a history that STARTS through Driver.Start, the SDK reporting one device with the
+// operating state recorded in EdgeX (up0). phases: 'e' the reader accepts and the connection
+// stays; 'r' the reader is unreachable (a standing connection breaks, the port refuses) for at
+// least two attempts. Only what the device announces is observed: "rU+ rD+ .. | up=<isUp>".
+func c15RunStart(id string, up0 bool, phases string) string {
+	r := &c15Run{id: id, name: "start-" + id}
+	l, err := net.Listen("tcp4", "127.0.0.1:0")
+	if err != nil {
+		return "!listen " + err.Error()
+	}
+	port := l.Addr().(*net.TCPAddr).Port
+	reserved := -1
+	open := true
+	conns := make(chan net.Conn, 16)
+	accept := func(l net.Listener) {
+		for {
+			c, err := l.Accept()
+			if err != nil {
+				return
+			}
+			conns <- c
+		}
+	}
+	go accept(l)
+	closePort := func() {
+		if open {
+			l.Close()
+			for try := 0; try < 50 && reserved < 0; try++ {
+				if fd, err := c15ReservePort([4]byte{127, 0, 0, 1}, port); err == nil {
+					reserved = fd
+				} else {
+					time.Sleep(2 * time.Millisecond)
+				}
+			}
+			open = false
+		}
+	}
+	openPort := func() bool {
+		if !open {
+			if reserved >= 0 {
+				syscall.Close(reserved)
+				reserved = -1
+			}
+			for try := 0; try < 50; try++ {
+				if l, err = net.Listen("tcp4", "127.0.0.1:"+strconv.Itoa(port)); err == nil {
+					go accept(l)
+					open = true
+					return true
+				}
+				time.Sleep(2 * time.Millisecond)
+			}
+			return false
+		}
+		return true
+	}
+	defer func() {
+		if open {
+			l.Close()
+		}
+		if reserved >= 0 {
+			syscall.Close(reserved)
+		}
+	}()
+	state := models.Down
+	if up0 {
+		state = models.Up
+	}
+	r.devices = []models.Device{{Name: r.name, OperatingState: models.OperatingState(state),
+		Protocols: map[string]models.ProtocolProperties{"tcp": {"host": "127.0.0.1", "port": strconv.Itoa(port)}}}}
+	asyncCh := make(chan *dsModels.AsyncValues, 256)
+	stopDrain := make(chan struct{})
+	defer close(stopDrain)
+	go func() {
+		for {
+			select {
+			case <-asyncCh:
+			case <-stopDrain:
+				return
+			}
+		}
+	}()
+	d := &Driver{lc: c15Logger{errs: &r.errLogs}, asyncCh: asyncCh, svc: &c15SDK{run: r},
+		activeDevices: make(map[string]*LLRPDevice), done: make(chan struct{})}
+	if len(phases) > 0 && phases[0] == 'r' {
+		closePort()
+	}
+	if err := d.Start(); err != nil {
+		return "!start " + err.Error()
+	}
+	d.devicesMu.RLock()
+	r.dev = d.activeDevices[r.name]
+	d.devicesMu.RUnlock()
+	if r.dev == nil {
+		return "!nodevice"
+	}
+	isUp := func() bool {
+		r.dev.deviceMu.RLock()
+		defer r.dev.deviceMu.RUnlock()
+		return r.dev.isUp
+	}
+	var cur *c15Conn
+	for _, ph := range phases {
+		switch ph {
+		case 'e':
+			if !openPort() {
+				return "!reopen"
+			}
+			var c net.Conn
+			select {
+			case c = <-conns:
+			case <-time.After(6 * time.Second):
+				r.logf("!noconn")
+				continue
+			}
+			cn := &c15Conn{c: c, mode: 'E', done: make(chan struct{}), stepDone: make(chan string, 4)}
+			go r.serve(cn, 1)
+			select {
+			case <-cn.stepDone:
+			case <-time.After(6 * time.Second):
+				r.logf("!steptimeout")
+			}
+			cur = cn
+		case 'r':
+			closePort()
+			if cur != nil {
+				cur.dropped.Store(true)
+				cur.c.Close()
+				<-cur.done
+				cur = nil
+			}
+			// unreachable for at least two attempts: until the device holds itself Down, at least
+			// two rounds of the (shortened) policies
+			dl := time.Now().Add(3 * time.Second)
+			for isUp() && time.Now().Before(dl) {
+				time.Sleep(2 * time.Millisecond)
+			}
+			time.Sleep(2*c15QuickWait + 2*c15SlowWait)
+		}
+	}
+	up := isUp()
+	done := make(chan struct{})
+	go func() { _ = d.RemoveDevice(r.name, nil); close(done) }()
+	select {
+	case <-done:
+	case <-time.After(4 * time.Second):
+	}
+	if cur != nil {
+		select {
+		case <-cur.done:
+		case <-time.After(time.Second):
+		}
+	}
+	r.mu.Lock()
+	defer r.mu.Unlock()
+	var reps []string
+	for _, t := range r.log {
+		if strings.HasPrefix(t, "r") || strings.HasPrefix(t, "!") {
+			reps = append(reps, t)
+		}
+	}
+	return fmt.Sprintf("%s | up=%d", strings.Join(reps, " "), map[bool]int{false: 0, true: 1}[up])
+}
+
 func TestVerifC15(t *testing.T) {
 	lines, w, done := verifIO(t)
 	defer done()
@@ -829,6 +1010,10 @@ func TestVerifC15(t *testing.T) {
 			defer wg.Done()
 			defer func() { <-sem }()
 			emit("S %d\n", i)
+			if f[1] == "start" && len(f) == 4 {
+				emit("R %d %s\n", i, c15RunStart(f[0], f[2] == "1", f[3]))
+				return
+			}
 			emit("R %d %s\n", i, c15RunScript(f[0], f[1] == "1", f[2:]))
 		}(i, f)
 	}
